@@ -14,6 +14,7 @@ ASSUMPTIONS = ["reference semantics (sim/refsem.py) reads the documentation corr
                "fake peers return only genuine models of the clauses they receive"]
 BUDGET = {"quick": 300, "thorough": 900}
 RUNS = {"quick": 2500, "thorough": 200000}
+THOROUGH_RUNS = 5000        # the thorough tier of this (expensive) check: a fixed range sized to stay within ~15 minutes
 TIER_OF = {}
 
 
@@ -33,6 +34,8 @@ def gen_case(rs, tier):
         faults = [f for f in gen_faults(W.stream(rs, "faults")) if f["kind"] != "stdout.epipe"]
     case = {"design": ast, "knobs": knobs, "peer2": p2, "tier": tier, "faults": faults}
     case["sweep"] = W.stream(rs, "sweep").random() < (0.15 if tier == "thorough" else 0.04)
+    if case["sweep"]:
+        case["timeout"] = 150        # one workload, run once per fault placement
     return case
 
 
@@ -138,7 +141,7 @@ SWEEP_KINDS = ['fs.enospc', 'fs.eio', 'fs.eacces', 'fs.vanish', 'peer.raise', 'p
 def run_case(case):
     """A sweep case runs the workload fault-free and then once per (operation index x fault kind) placement."""
     if case.get("sweep"):
-        return common.fault_sweep(run_one, case, SWEEP_KINDS, cap=160 if case.get("tier") == "thorough" else 60)
+        return common.fault_sweep(run_one, case, SWEEP_KINDS, cap=60 if case.get("tier") == "thorough" else 25)
     return run_one(case)
 
 
